@@ -11,45 +11,9 @@
 (*               above usize::MAX is a value that equals no number         *)
 (*   Fits32(x)   x <= u32::MAX                                             *)
 (***************************************************************************)
-EXTENDS Naturals, Sequences
+EXTENDS Naturals, Sequences, StrideCore   \* StrideCore declares Zero, Mul(_, _) and specifies Stride
 
-CONSTANTS Zero, Mul(_, _), Fits32(_)
-
----------------------------------------------------------------------------
-(* Stride: Empty | Zero | Striding(stride, count) | Saturated(stride, count, reps) *)
-
-StrideInit == [tag |-> "E", s |-> Zero, c |-> 0, r |-> 0]
-
-\* Stride::push — returns [ok, st]; st is untouched when ok = FALSE
-StridePush(st, x) ==
-  CASE st.tag = "E" ->
-         IF x = Zero THEN [ok |-> TRUE,  st |-> [tag |-> "Z", s |-> Zero, c |-> 0, r |-> 0]]
-                     ELSE [ok |-> FALSE, st |-> st]
-    [] st.tag = "Z" -> [ok |-> TRUE, st |-> [tag |-> "S", s |-> x, c |-> 2, r |-> 0]]
-    [] st.tag = "S" ->
-         IF Mul(st.s, st.c) = x
-         THEN [ok |-> TRUE, st |-> [st EXCEPT !.c = @ + 1]]
-         ELSE IF Mul(st.s, st.c - 1) = x
-              THEN [ok |-> TRUE, st |-> [st EXCEPT !.tag = "T", !.r = 1]]
-              ELSE [ok |-> FALSE, st |-> st]
-    [] st.tag = "T" ->
-         IF Mul(st.s, st.c - 1) = x
-         THEN [ok |-> TRUE, st |-> [st EXCEPT !.r = @ + 1]]
-         ELSE [ok |-> FALSE, st |-> st]
-
-StrideLen(st) ==
-  CASE st.tag = "E" -> 0
-    [] st.tag = "Z" -> 1
-    [] st.tag = "S" -> st.c
-    [] st.tag = "T" -> st.c + st.r
-
-\* 0-based, defined for i < StrideLen(st)
-StrideIndex(st, i) ==
-  CASE st.tag = "Z" -> Zero
-    [] st.tag = "S" -> Mul(st.s, i)
-    [] st.tag = "T" -> IF i < st.c THEN Mul(st.s, i) ELSE Mul(st.s, st.c - 1)
-
-StrideDenote(st) == [i \in 1..StrideLen(st) |-> StrideIndex(st, i - 1)]
+CONSTANTS Fits32(_)
 
 ---------------------------------------------------------------------------
 (* IndexList: smol (u32) then chonk (u64); chonk is used from the first    *)
